@@ -57,7 +57,7 @@ seeded changes and which check catches which in §11.
   | U5 | `columns::wrap_columns` | the complete layout of C20 relative to whatever `wrap` returns; no panic; theorem: for well-formed texts whose lines fit, every row is exactly gaps + columns + remainder wide | C20, C04 |
   | U6 | `core::Word::from`, `core::break_words` | lossless, spaces-only whitespace, cached width; dispatch is lossless / identity for narrow words; words that hold no space stay so (`tails_ok`) | C11, C12, C01, C02 |
   | U8 | `indentation::indent` | equals the spec function of C19 | C19, C04 |
-  | U9 | `indentation::dedent` | removes exactly the margin the statement defines | C18, C04 |
+  | U9 | `indentation::dedent` | removes exactly the margin the statement defines; theorems over that postcondition: idempotent, and `dedent(indent(s, p)) == dedent(s)`, for texts without carriage returns | C18, C04 |
   | U10 | `fill::fill_inplace` | same length; bytes change only `' '` → `'\\n'`, and exactly at the run ends first-fit makes of each line's ASCII words; `from_utf8(..).unwrap()` cannot fail | C17, C04 |
   | U11 | `wrap::wrap`, `wrap_single_line`, `wrap_single_line_slow_path` | every line starts with its indent; **for the whole text** line k is `indent_k ++ text[a_k..b_k] ++ (nothing \| "-")` with slices in order, on char boundaries, separated only by spaces and at most one line ending; **no slice ends in a space** (ASCII-space separator, built-in splitters); the line breaker gets the widths of the indents actually rendered (and a zero-width first fragment when the first line is the narrower one); >= 1 line per paragraph, earlier lines untouched; the shortcut's exact result, and (first-fit, built-in splitters) the slow path gives that same line when entered under the shortcut's condition; **`wrap` computes the paragraph-wise function `wrap_fn(split(text, E), options)`** (each of the three functions: the appended lines are a function of paragraph, options and "does it start the output"), with the relational clauses of C09 (independence of paragraphs, `wrap(b)` for empty indents, never fewer lines than paragraphs, LF↔CRLF) and C08 (what follows the indent depends on the indents' widths and emptiness only) as theorems over it | C08, C01, C02, C09, C05, C04 |
   | U12 | `fill::fill_slow_path`, `fill::fill` | both equal `wrap`'s lines joined by the line ending — shortcut included | C09, C05, C04 |
@@ -85,9 +85,10 @@ seeded changes and which check catches which in §11.
   - C04: "optimal-fit never reports an overflow error" (float magnitudes), the inside of `unicode-linebreak` / `unicode-width`, the
     `Box<dyn Iterator>` dispatch of `find_words`, the thin constructors;
   - C05: the first sentence (a paragraph whose display width fits is one line) and the optimal-fit / custom-splitter cases of the second;
-  - C13 end to end, C14, the round trips of C15 / C16, the agreement of `fill_inplace` with `wrap` (C17), C18's two corollaries:
+  - C13 end to end, C14, the round trips of C15 / C16, the agreement of `fill_inplace` with `wrap` (C17), C18's idempotence on texts that contain carriage returns:
     relational statements that compare runs on *different* inputs through more than the paragraph structure.
-  C09's and C08's relational clauses, by contrast, are theorems over `wrap`'s functional postcondition (U11, §2.9).
+  C09's and C08's relational clauses, by contrast, are theorems over `wrap`'s functional postcondition (U11, §2.9), and C18's two
+  corollaries are theorems over `dedent`'s (and `indent`'s) for texts without carriage returns (U9, §2.9).
 * **Robustness of the machinery** (§8, §11): 175 seeded property-breaking changes that compile and pass the upstream suite
   (5 reverted fixes + 170 from independent sub-agents in twelve waves) are all reported; 25 + 12 behaviour-preserving refactors, 16 small edits and 137 renames of locals
   raise no alarm; every unit verifies under 8 different SMT seeds; the unchanged tree passes all 20 checks in both tiers.
@@ -196,8 +197,8 @@ discharged relative to that link (this is how every multi-unit proof here works;
 are of this kind), and (b) a clause may fail on the input class of an *open known finding* — there the pinned code demonstrably
 violates the letter of the statement and the check says so (`KNOWN-FINDING`) — provided it is proved on the complement (C20's width
 sentence: proved for texts that do not end inside an escape sequence, false otherwise, KF7);
-`other` for mixtures (the explanation names the proved and the bounded parts; C18 is `other` because its two "therefore" corollaries are
-bounded-only); `exploration` for bounded-only.
+`other` for mixtures (the explanation names the proved and the bounded parts; C18 is `other` because idempotence is proved only for texts without carriage
+returns; with them it is bounded-only and fails on KF4's class); `exploration` for bounded-only.
 
 ### 2.8 How units are linked
 
@@ -233,7 +234,7 @@ That is false for a hand-made `Word` with empty text, non-empty whitespace and a
 exactly that (`vx_break_apart_collect`); `break_words` carries the precondition "cached widths are display widths" (true of
 every `Word` the library makes: proved for `Word::from`, `split_words` and `break_apart`, and threaded through U11).
 
-### 2.9 Relational clauses as theorems over a functional postcondition (C09, C08)
+### 2.9 Relational clauses as theorems over a functional postcondition (C09, C08, C18, C19)
 
 A contract speaks about one call; "the lines after `wrap(a)` do not depend on `a`" compares calls. Where a function can be
 given a postcondition of the form *result == F(arguments)* for a spec function `F`, such a clause becomes a theorem about `F`
@@ -256,6 +257,15 @@ given a postcondition of the form *result == F(arguments)* for a spec function `
   paragraphs), `c09_line_ending_equivariance`, `wrap_fn_is_indent_plus_rest` + `c08_wrap_rest_depends_on_indent_widths_only`.
   Each was probed for vacuity (an appended `assert(false)` fails) and for need of its hypotheses (without "same emptiness of
   the indents" the C08 theorem fails — the sentinel word depends on it; without "unbordered" `split_concat` fails).
+
+`dedent` and `indent` are the other place where the device applies. U8 proves `indent(s, p) == indent_spec(s, p)` (C19's further clauses
+are lemmas over `indent_spec`), U9 proves of `dedent` a postcondition that determines the result from `str::lines(s)` and the margin length.
+With one std fact — on a text without carriage returns `str::lines` is `split_terminator('\\n')`, stated as an axiom and checked on the
+real `str::lines` by the bounded contract `A4.std_models` — and the proved split / join lemmas both units share
+(`prelude/split_chars.vrs`, `prelude/indent_spec.vrs`), C18's two corollaries become theorems (U9): `c18_dedent_idempotent` (for *any* two
+results the contract allows for `s` and for the first result: they are equal; key lemma `second_margin_empty` — a common margin of
+the output lines, appended to the removed margin, would be a longer common margin of the input) and `c18_dedent_of_indent` (key lemma
+`margin_of_mapped`: the margin of the indented lines is the prefix followed by the margin of the lines). Both carry a vacuity probe.
 
 The same device does not reach C14 (idempotence of `fill`), C13, C15/C16's round trips or C17's agreement with `wrap`: they
 compare runs on *different texts* whose relation goes through what the word stages compute, not just through how `wrap`
